@@ -3,7 +3,8 @@
 // goroutine blocked on them is *durably* blocked for testing/synctest and
 // (b) every Lock is a yield point at which the simulator may park the caller
 // for a seeded amount of fake time, letting other goroutines, timers and
-// network events overtake it.  Everything else is the real package.
+// network events overtake it.  Pool is a deterministic free list that can
+// poison released objects (pool.go).  Everything else is the real package.
 package vsync
 
 import (
@@ -13,7 +14,6 @@ import (
 )
 
 type (
-	Pool      = sync.Pool
 	WaitGroup = sync.WaitGroup
 	Map       = sync.Map
 	Locker    = sync.Locker
